@@ -190,7 +190,9 @@ def run(ctx):
     dt = 2.0 ** -6
     three = [REF, [-9, -6, -9], [-3, 0, -3]]
     fams = {
-        "no-screening/fixed-dt": dict(kind="barhole", dt=dt, solve_time=(24 if ctx.quick else 60) * dt - dt / 2, k=8, tolq=5),
+        "no-screening/fixed-dt": dict(kind="barhole", dt=dt, solve_time=(24 if ctx.quick else 60) * dt - dt / 2, k=8, tolq=5, reload=True),
+        # a time- and position-dependent disorder_epsilon given point by point (xi = 0.8 um is not 1 in any of the unit systems)
+        "no-screening/dynamic-epsilon": dict(kind="bar", dt=dt, solve_time=(16 if ctx.quick else 32) * dt - dt / 2, k=4, tolq=5, epsilon="pointwise"),
         "screening/fixed-dt": dict(kind="bar", dt=dt, solve_time=(6 if ctx.quick else 16) * dt - dt / 2, k=3, screening=True, screening_tol=1e-6, tolq=50),
     }
     if not ctx.quick:
@@ -199,10 +201,15 @@ def run(ctx):
     else:
         three_more = [[-9, 0, -3]]        # a system whose current/length ratio is not A/m (uA/um = nA/nm = mA/mm = A/m)
     jobs, tags = [], []
+    variant = {}
     for label, a in fams.items():
         for u in three + three_more:
             jobs.append(("call", dict(module="harness.units", func="run_twin", args=dict({k: v for k, v in a.items() if k != "tolq"}, u=u))))
             tags.append((label, u))
+        if a.get("epsilon"):       # the vectorized form of the same epsilon, in the reference unit system
+            jobs.append(("call", dict(module="harness.units", func="run_twin", args=dict({k: v for k, v in a.items() if k != "tolq"}, u=REF, epsilon="vectorized"))))
+            tags.append((label, REF))
+            variant[len(tags) - 1] = " (vectorized epsilon)"
     # history: ONE options object re-used for a second solve in other units; the first solution observed before and after
     hist_cases = [dict(u1=REF, u2=[-9, -6, -9])] + ([] if ctx.quick else [dict(u1=[-9, 0, -3], u2=REF), dict(u1=REF, u2=[-6, -6, -3], kind="barhole")])
     for hc in hist_cases:
@@ -216,6 +223,7 @@ def run(ctx):
     ttr = []
     for label, a in fams.items():
         mine = [(u, r_) for (lab, u), r_ in zip(tags, runs) if lab == label]
+        suffix = [variant.get(n, "") for n, (lab, u) in enumerate(tags) if lab == label]
         bad_runs = [(u, r_) for u, r_ in mine if "error" in r_]
         if bad_runs:
             # a run that raises in one unit system is an observation too: the outcome must not depend on the units
@@ -229,14 +237,15 @@ def run(ctx):
             continue
         refrun = mine[0][1]
         scale = {}
-        for qn in ("abs_psi", "Js", "Jn", "dmu"):
+        qnames = ["abs_psi", "Js", "Jn", "dmu"] + (["epsilon"] if "epsilon" in refrun["frames"][0] else [])
+        for qn in qnames:
             scale[qn] = max(1e-12, max(max(abs(x) for x in fr[qn]) for fr in refrun["frames"]))
         scale["K"] = max(1e-300, max(max(abs(x) for x in v) for v in refrun["K_A_per_m"].values()))
         ev = []
-        for u, r_ in mine:
-            rid = "/".join(units.unit_names(u))
+        for (u, r_), sfx in zip(mine, suffix):
+            rid = "/".join(units.unit_names(u)) + sfx
             for fr in r_["frames"]:
-                for qn in ("abs_psi", "Js", "Jn", "dmu"):
+                for qn in qnames:
                     ev.append({"run": rid, "key": f"step{fr['step']}/{qn}", "q": [int(round(x / scale[qn] * Q)) for x in fr[qn]]})
             for st, v in r_["K_A_per_m"].items():
                 ev.append({"run": rid, "key": f"step{st}/current_density[A/m]", "q": [int(round(x / scale["K"] * Q)) for x in v]})
@@ -247,6 +256,25 @@ def run(ctx):
                     ev.append({"run": rid + (" via units=" if " via " in qn else ""), "key": f"step{st}/{base}",
                                "q": [int(max(-2e9, min(2e9, round(x / sc * Q)))) for x in v]})
             ev.append({"run": rid, "key": "frames", "q": [fr["step"] for fr in r_["frames"]]})
+            qq = lambda xs, sc: [int(max(-2e9, min(2e9, round(x / sc * Q)))) if x == x else 2 * 10 ** 9 for x in xs]
+            if "reloaded" in r_:        # the solution read back with Solution.from_hdf5, and used as a seed
+                rl, rr_ = r_["reloaded"], rid + " (saved and reloaded)"
+                ev.append({"run": rr_, "key": "reload/outcome", "q": [1 if "error" in rl else 0]})
+                ev.append({"run": rid, "key": "reload/outcome", "q": [0]})
+                if "error" not in rl:
+                    st = rl["step"]
+                    ev.append({"run": rr_, "key": f"step{st}/current_density[A/m]", "q": qq(rl["K"], scale["K"])})
+                    for qn, v in rl["fields"].items():
+                        ev.append({"run": rr_, "key": f"step{st}/{qn}", "q": qq(v, max(1e-300, max(abs(x) for x in refrun["fields"][st][qn])))})
+                    dsc = refrun["device"]
+                    ev.append({"run": rid, "key": "device: xi, lambda, K0, Bc2 in SI", "q": [int(round(x / d0 * Q)) for x, d0 in zip(r_["device"], dsc)]})
+                    ev.append({"run": rr_, "key": "device: xi, lambda, K0, Bc2 in SI", "q": [int(max(-2e9, min(2e9, round(x / d0 * Q)))) for x, d0 in zip(rl["device"], dsc)]})
+                cn = r_["continuation"]
+                ev.append({"run": rid, "key": "continuation from the reloaded solution/outcome", "q": [1 if "error" in cn else 0]})
+                ev.append({"run": "the property", "key": "continuation from the reloaded solution/outcome", "q": [0]})
+                if "error" not in cn and "error" not in refrun.get("continuation", {"error": 1}):
+                    ev.append({"run": rid, "key": "continuation/abs_psi", "q": qq(cn["abs_psi"], 1.0)})
+                    ev.append({"run": rid, "key": "continuation/current_density[A/m]", "q": qq(cn["K"], max(1e-300, max(abs(x) for x in refrun["continuation"]["K"])))})
             ctx.note_case((label, rid), len(r_["frames"]) >= 2)
         ttr.append({"tol": a["tolq"], "minruns": len(mine), "ev": ev, "label": label})
         ctx.sample({"family": label, "runs": [units.unit_names(u) for u, _ in mine], "frames": [fr["step"] for fr in refrun["frames"]],
